@@ -164,7 +164,10 @@ type breader struct {
 	err error
 
 	budget uint64
+	depth  int
 }
+
+const maxCodeDepth = 250
 
 func (r *breader) readConst() (v Value) {
 	var tp ValueType
@@ -207,6 +210,15 @@ func (r *breader) readConst() (v Value) {
 }
 
 func (r *breader) readCode(c *Code) {
+	// Functions are nested in one another through their constants: bound the
+	// recursion (the parser does not accept more than 200 levels of source).
+	if r.depth++; r.depth > maxCodeDepth {
+		if r.err == nil {
+			r.err = errInvalidSize
+		}
+		return
+	}
+	defer func() { r.depth-- }()
 	var sz int64
 	r.read(
 		0+0+8,
